@@ -88,6 +88,24 @@ theorem comment_is_ignorable (rest : List Char) (h : ∀ c, rest.head? = some c 
 example : skipIgnorable " \t  ld".toList = "ld".toList := by decide
 example : skipIgnorable "; ld 1, 2\nadd".toList = "add".toList := by decide
 
+/-- **the look-ahead cut skips a comment as a whole**: whatever the comment holds — the character
+    looked for, parentheses, braces — has no effect, and a comment does not count as a token already seen
+    (finding F43, repaired: the scan used to run over the raw characters of the comment) -/
+theorem lookahead_skips_comments (wanted : Char) (fuel : Nat) (cs : List Char) (idx : Nat) (seen : Bool) (paren brace : Nat) :
+    lookaheadScan wanted (fuel + 1) (';' :: cs) idx seen paren brace =
+      (let n := (decideNextToken (';' :: cs)).2
+       let n := if n == 0 then 1 else n
+       lookaheadScan wanted fuel ((';' :: cs).drop n) (idx + n) seen paren brace) := by
+  rw [lookaheadScan]
+  simp
+
+/-- **the blank a pattern spells is satisfied by a comment too** (`ld;* c *;a` for the pattern `ld a`) -/
+theorem pattern_blank_accepts_a_comment (defs : List Ruledef) (fuel : Nat) (rule : Rule) (rest : List RPart) (w : MW)
+    (consumeAll : Bool) (m : IMatch) (h : (tokenAt w.vis).kind = .Comment) :
+    matchWithRule defs (fuel + 1) rule (.whitespace :: rest) w consumeAll m = matchWithRule defs fuel rule rest w consumeAll m := by
+  rw [matchWithRule]
+  simp [h]
+
 /-! ## rule order -/
 
 /-- **trying the rules in another order yields the same matches** (as a multiset) -/
